@@ -18,3 +18,12 @@ type SourcesCheckable interface {
 	OnError(t *ast.Task) error
 	Kind() string
 }
+
+// SuccessRecorder is implemented by sources checkers that only record a
+// fingerprint once the task has run successfully. The fingerprint computed by
+// IsUpToDate is kept in a pending file (pendingSuffix) until then.
+type SuccessRecorder interface {
+	OnSuccess(t *ast.Task) error
+}
+
+const pendingSuffix = ".pending"
